@@ -196,11 +196,16 @@ def fold( e, env=None ):
         if isinstance( base_, _Record ) and callable( getattr( base_, e.func.attr, None )):
             return _call( getattr( base_, e.func.attr ), [ fold( a, env ) for a in e.args ], { k.arg: fold( k.value, env ) for k in e.keywords } )
     if isinstance( e, ast.Call ) and isinstance( e.func, ast.Name ) and e.func.id in _SAFE_BUILTINS and _SAFE_BUILTINS[e.func.id] is not None and not e.keywords:
-        args = [ fold( a, env ) for a in e.args ]
+        args = []
+        for a in e.args:
+            if isinstance( a, ast.Starred ):
+                args.extend( list( fold( a.value, env )))
+            else:
+                args.append( fold( a, env ))
         try:
             return _SAFE_BUILTINS[e.func.id]( *args )
         except Exception as exc:
-            raise NoFold( str( exc ))
+            raise Raises( '%s: %s' % ( type( exc ).__name__, exc ))
     if isinstance( e, ast.Call ) and isinstance( e.func, ast.Attribute ) and e.func.attr == 'format' and isinstance( e.func.value, ast.Constant ) and isinstance( e.func.value.value, str ):
         try:
             return e.func.value.value.format( *[ fold( a, env ) for a in e.args ], **{ k.arg: fold( k.value, env ) for k in e.keywords } )
@@ -228,6 +233,13 @@ def fold( e, env=None ):
                     return v
             elif d in env:
                 return env[d]
+    if isinstance( e, ast.Attribute ) and e.attr in _PURE_STR_METHODS:
+        try:
+            base_ = fold( e.value, env )
+        except NoFold:
+            base_ = None
+        if isinstance( base_, ( str, bytes )):
+            return getattr( base_, e.attr )			# a bound side-effect-free method of a constant ( map( term.find, symbols ) )
     if isinstance( e, ast.Attribute ):
         # a field of a folded value: a key of a mapping ( the repository's dotdict reads a.b as a['b'] ) or an attribute of a plain record
         try:
@@ -240,6 +252,8 @@ def fold( e, env=None ):
             raise Raises( 'AttributeError: %s' % e.attr )		# a field the folded mapping does not have: what dotdict raises
         if isinstance( base, _Record ) and hasattr( base, e.attr ):
             return getattr( base, e.attr )
+    if isinstance( e, ast.Name ) and e.id in _SAFE_BUILTINS and _SAFE_BUILTINS[e.id] is not None:
+        return _SAFE_BUILTINS[e.id]					# a side-effect-free builtin handed on as a value ( map( float, ... ) )
     raise NoFold( ast.dump( e )[:80] )
 
 
@@ -414,6 +428,12 @@ def run_block( stmts, env, ignore_calls=(), stop_at_yield=True ):
             if done is not None:
                 return done
             continue
+        if isinstance( st, ast.With ):
+            # context managers ( locks, condition variables ) are not modelled: the body runs straight
+            out = run_block( st.body, env, ignore_calls, stop_at_yield )
+            if out.kind != 'fall':
+                return out
+            continue
         if isinstance( st, ast.Try ):
             # the straight path only: body, else, finally ( a body that cannot be folded is not a decision fragment; handlers are not modelled )
             try:
@@ -459,7 +479,7 @@ def run_block( stmts, env, ignore_calls=(), stop_at_yield=True ):
 
 
 
-def helper_calls( tree, ignore_calls=() ):
+def helper_calls( tree, ignore_calls=(), base_env=None ):
     """{ 'call:<name>': callable } for the module-level functions of a parsed file whose body is a loop-free decision fragment: a decision
     moved into a small helper ( transfer_limit( address ), bank( address ) ... ) is evaluated where it is called.  The callable raises
     NoFold when the helper is more than that."""
@@ -470,7 +490,7 @@ def helper_calls( tree, ignore_calls=() ):
             params = [ a.arg for a in f.args.args ]
             if len( args ) > len( params ) or f.args.vararg or f.args.kwarg:
                 raise NoFold( 'helper %s: arguments' % f.name )
-            env = dict( out )
+            env = dict( base_env or {} ); env.update( out )
             dflt = f.args.defaults
             for k, p_ in enumerate( params ):
                 if k < len( args ):
